@@ -74,6 +74,13 @@ def reward (i : Inst) (as : List Nat) : Int :=
 
 /-- `check_solution_validity`: `arange(actions.size(1)) == actions.sort(1)[0]` (True = no assertion
 raised).  The expected node set is derived from the WIDTH OF THE ACTION TENSOR, not from the instance. -/
-def check (_ : Inst) (as : List Nat) : Bool := Tspfam.permTest Params.tspCheckCmp as.length as
+def checkWith (fromInst : Bool) (i : Inst) (as : List Nat) : Bool :=
+  if fromInst then
+    -- repaired clause: `arange(num_loc)` from the instance; a width mismatch makes the comparison raise
+    decide (as.length = i.n) && Tspfam.permTest Params.tspCheckCmp i.n as
+  else Tspfam.permTest Params.tspCheckCmp as.length as
+
+/-- the checker as written: the width source is an extracted token (`false` = width of the action tensor) -/
+def check (i : Inst) (as : List Nat) : Bool := checkWith Params.tspCheckWidthFromInst i as
 
 end Rl4co.Tsp
